@@ -2,5 +2,5 @@ SPECIFICATION Spec
 CONSTANTS
   B = 4
   N = 3
-INVARIANTS Arith Logic Shifts Division Exponent
+INVARIANTS Arith Logic Shifts Division Exponent Ternary
 CHECK_DEADLOCK FALSE
